@@ -84,3 +84,14 @@ A(M("c12-isolated-3p", "C12", C, "to_unpair.append(stem.strand3p.first - 1)", "t
 A(M("c12-isolated-guard", "C12", C, "            if stem.strand5p.first == stem.strand5p.last:\n                to_unpair", "            if stem.strand5p.first <= stem.strand5p.last:\n                to_unpair", "isolated-select"))
 A(M("c12-stem-mutate-via-elements", "C12", C, "        stems, _, _, _ = self.elements\n        to_unpair = []\n", "        stems, _, _, _ = self.elements\n        stems.reverse()\n        to_unpair = []\n", "receiver-write"))
 A(M("c12-deepcopy-silent", "C12", C, "import itertools\n", "import copy\nimport itertools\n", kind="silent", edits=[("import itertools\n", "import copy\nimport itertools\n"), ("        entries = [\n            Entry(entry.index_, entry.sequence, entry.pair) for entry in self.entries\n        ]\n", "        entries = copy.deepcopy(self.entries)\n")]))
+
+# ---------------------------------------------------------------- C14
+T3 = "tertiary.py"
+AN = "annotator.py"
+A(M("c14-set-solutions", "C14", C, "        solutions = {}\n", "        solutions = set()\n", "order-taint", edits=[("        solutions = {}\n", "        solutions = set()\n"), ("            solutions[self.__make_dot_bracket(regions, orders)] = None\n", "            solutions.add(self.__make_dot_bracket(regions, orders))\n")]))
+A(M("c14-iter-set-bp", "C14", T3, "        for base_pair in self.base_pairs2d:\n", "        for base_pair in set(self.base_pairs2d):\n", "order-taint"))
+A(M("c14-key-not-total", "C14", T3, "", "", "order-taint", edits=[("                    return 0, pair.nt1, pair.nt2\n                else:\n                    return 1, pair.nt1, pair.nt2\n", "                    return 0\n                else:\n                    return 1\n")], count=2))
+A(M("c14-labels-set", "C14", AN, "    counter = Counter(labels)\n", "    counter = Counter(labels)\n    labels = list(set(labels))\n", "order-taint"))
+A(M("c14-unsorted-links", "C14", "molecule_filter.py", 'for link in sorted(links["entity"])', 'for link in links["entity"]', "order-taint"))
+A(M("c14-random", "C14", AN, "import math\n", "import math\nimport random\n", "nondeterministic-value", edits=[("import math\n", "import math\nimport random\n"), ("    base_pairs = []\n    for residue_i, residue_j, lw in sorted(base_base_pairs):", "    random.shuffle(base_base_pairs)\n    base_pairs = []\n    for residue_i, residue_j, lw in sorted(base_base_pairs):")]))
+A(M("c14-sorted-silent", "C14", T3, "        for base_pair in self.base_pairs2d:\n", "        for base_pair in sorted(set(self.base_pairs2d)):\n", kind="silent"))
